@@ -377,11 +377,15 @@ class Channel(BaseChannel):
         :return:
         """
         while not self.is_closed:
+            # Look at the consumers before draining: everything delivered
+            # before the last consumer went away is queued by then, and is
+            # still handed over by the final pass.
+            has_consumers = bool(self.consumer_tags)
             self.process_data_events(
                 to_tuple=to_tuple,
                 auto_decode=auto_decode
             )
-            if self.consumer_tags:
+            if has_consumers:
                 time.sleep(IDLE_WAIT)
                 continue
             break
